@@ -1,4 +1,5 @@
 SPECIFICATION TraceSpec
 CONSTRAINT HW
+INVARIANT LzAbsStable
 POSTCONDITION AcceptedV
 CHECK_DEADLOCK FALSE
